@@ -1,3 +1,4 @@
+\* measured: 1,876 distinct / 206,361 generated states, ~16 s with 6 workers; channels 1,2 = (g1,type 1),(g1,type 2)
 SPECIFICATION Spec
 CONSTANTS
   Users = {"u1", "u2"}
@@ -12,7 +13,7 @@ CONSTANTS
   Sizes = {1, 2}
   Stray = TRUE
   BVals = {}
-  BSVs = {}
+  BSVs = {0}
 VIEW View
 INVARIANTS TypeOK C16_PassExact
 PROPERTIES C16_SourceVersionForward C16_CursorsForward C16_RecreateOnlyNewer C16_OlderSourceRefused C16_AckForward C16_FailedUnchanged
